@@ -20,6 +20,10 @@ import Proofs.LinksBytes
 import Proofs.LinksSizes
 import Proofs.LinksHist
 import Proofs.LinksDemo
+import Proofs.LinksStore
+import Proofs.LinksTwoPC
+import Proofs.LinksUndo
+import Proofs.FileStoreRefine
 import Proofs.FileStoreRefine2
 import Proofs.FileStoreTid
 import Proofs.FileStoreTop
@@ -211,6 +215,63 @@ example : (Disk.recover (Format.encodeFile (logF exFS.log))).toOption.map
 /-- corner: an empty pickle — the bytes still have the length C04 computes (42), C01's `len` says 50 -/
 example : (Format.encodeRec (drecF 4 ⟨1, 1, 0, .data []⟩)).length = 42 ∧
     (⟨1, 1, 0, .data []⟩ : FileStore.DRec).size = 42 ∧ (drecF 4 ⟨1, 1, 0, .data []⟩).len = 50 := by decide
+
+/-- C05 ↔ C04 (↔ C01): the two-phase-commit machine of C05 keeps payloads as (length, tag) pairs
+    and computes positions; translated to C04 (`twoTxn`: `dlen` bytes per payload, a zero back
+    pointer for a deletion) its record and transaction sizes are C04's — hence, by
+    `fs_size_is_encoded_length`, the lengths of the bytes C01 writes — and the pieces `tpc_vote`
+    writes add up to exactly that size. -/
+theorem twopc_sizes (t : TwoPC.FTxn) (r : TwoPC.Rec) (s : TwoPC.State) :
+    (twoRec r).size = r.size ∧
+    (twoTxn t).size = TwoPC.transHdrLen + t.ul + t.dl + t.el + TwoPC.recsSize t.recs + 8 ∧
+    (∀ older, (Format.encodeTxn (ftxnF older (twoTxn t))).length =
+      TwoPC.transHdrLen + t.ul + t.dl + t.el + TwoPC.recsSize t.recs + 8) ∧
+    (TwoPC.votePieces s).sum = s.thl + TwoPC.recsSize s.tfile + 8 := by
+  refine ⟨twoRec_size r, twoTxn_size t, fun older => ?_, ?_⟩
+  · rw [encodeTxn_ftxnF_length, twoTxn_size]
+  · have : ∀ l : List TwoPC.Rec, (l.map TwoPC.Rec.size).sum = TwoPC.recsSize l := by
+      intro l; induction l with
+      | nil => rfl
+      | cons a l ih => simp only [List.map_cons, List.sum_cons, TwoPC.recsSize, ih]
+    simp only [TwoPC.votePieces, List.cons_append, List.sum_cons, List.sum_append, this,
+      List.sum_nil]
+    omega
+
+/-- C05 ↔ C04, `_pos`: `tpc_begin` of C05 computes `_thl` as C04's `Staged.thl`, and a
+    `tpc_finish` after a successful vote advances `_pos` by exactly the size C04's `finish` adds
+    (`pos + toTxn.size`) for the translated transaction, which it puts on top of the log. -/
+theorem twopc_pos_advances_like_filestore (s : TwoPC.State) (t : TwoPC.TxnId) :
+    (∀ tid st ul dl el, s.txn ≠ some t → s.commitLock = none →
+      (TwoPC.doBegin s t tid st ul dl el).1.thl = 23 + ul + dl + el ∧
+      (TwoPC.doBegin s t tid st ul dl el).1.ude = (ul, dl, el)) ∧
+    (s.txn = some t → TwoPC.voted s → s.armed ≠ some 1 →
+      s.thl = 23 + s.ude.1 + s.ude.2.1 + s.ude.2.2 →
+      (TwoPC.doFinish s t).1.txns = ⟨s.tid, s.tstatus, s.ude.1, s.ude.2.1, s.ude.2.2, s.tfile⟩ :: s.txns ∧
+      (TwoPC.doFinish s t).1.pos =
+        s.pos + (twoTxn ⟨s.tid, s.tstatus, s.ude.1, s.ude.2.1, s.ude.2.2, s.tfile⟩).size) := by
+  refine ⟨fun tid st ul dl el h1 h2 => ?_, fun h1 h2 h3 h4 => ?_⟩
+  · unfold TwoPC.doBegin
+    rw [if_neg h1, h2]
+    simp only [TwoPC.transHdrLen]
+    by_cases c1 : 23 + ul + dl + el > 65535
+    · by_cases c2 : ul > 65535
+      · simp [c1, c2]
+      · by_cases c3 : dl > 65535
+        · simp [c1, c2, c3]
+        · by_cases c4 : el > 65535 <;> simp [c1, c2, c3, c4]
+    · simp [c1]
+  · unfold TwoPC.doFinish
+    rw [if_neg (by simp [h1]), if_neg (by simp [h2]), if_neg h3]
+    refine ⟨rfl, ?_⟩
+    rw [twoTxn_size]
+    show s.nextpos = _
+    rw [h2.2.2, h4]
+    simp only [TwoPC.transHdrLen]
+    omega
+
+example : (twoTxn ⟨5, 32, 1, 2, 0, [⟨1, 5, 0, false, 3, 9⟩, ⟨2, 5, 0, true, 0, 0⟩]⟩).size = 129 ∧
+    (Format.encodeTxn (ftxnF [] (twoTxn ⟨5, 32, 1, 2, 0, [⟨1, 5, 0, false, 3, 9⟩, ⟨2, 5, 0, true, 0, 0⟩]⟩))).length
+      = 129 := by decide +kernel
 
 /-! ## §3  History queries: `History.lean` (C04) = the private histories of C07, C16, C02/C15 -/
 
@@ -417,5 +478,106 @@ theorem issued_tids_sorted (ts : Nat) (clock : List Nat) :
   ⟨Proofs.FileStoreTid.issue_pairwise ts clock, Proofs.FileStoreTid.issue_gt ts clock⟩
 
 example : Tid.issue 10 [5, 5, 20, 3] = [11, 12, 20, 21] := by decide
+
+/-! ## §6  Record-level stores: `Copy.lean` (C17) = `FileStore.lean` (C04)
+
+Translation `storeL : Copy.Store → FileStore.Log`: a pointer `(level, index)` ↦ the byte offset
+`Recover.recOff`; records newest first.  This closes the chain
+bytes (C01) = bytes (C17) — Copy.Store — FileStore.Log — History. -/
+
+/-- the translations commute: Copy.Store → FileStore.Log → Format transactions is Copy.Store →
+    Format transactions, and C04's computed end of log is C17's computed store size -/
+theorem store_triangle (S : Copy.Store) :
+    logF (storeL S) = storeF S ∧ FileStore.logEnd (storeL S) = Recover.storeSize S :=
+  ⟨logF_storeL S, logEnd_storeL S⟩
+
+/-- C17 ↔ C04, pointers: the record a `(level, index)` pointer designates in C17's store is the
+    record at byte offset `recOff` in C04's log, and chasing back pointers (`_loadBack_impl`) ends
+    at the same bytes / the same zero pointer. -/
+theorem copy_pointers_are_offsets (S : Copy.Store) (l i : Nat) :
+    (∀ r o, Copy.recAt S l i = some (r, o) →
+      (FileStore.recAt (storeL S) (Recover.recOff S l i)).map (·.2) = some (recL o r)) ∧
+    (∀ x, Copy.loadBack S l i = some x → FileStore.loadBack (storeL S) (Recover.recOff S l i) = x) :=
+  ⟨fun _ _ h => recAt_storeL h, fun _ h => loadBack_storeL h⟩
+
+/-- C17 ↔ C04: what C17's `FileStorage.iterator()` (`Copy.iterate`) yields is exactly the abstract
+    history C04 assigns to the translated log (`FileStore.abs`): same transactions, same records,
+    same resolved data, same `data_txn` hints.  Only hypothesis: the iteration does not hit a
+    dangling pointer. -/
+theorem copy_iterate_is_filestore_abs (S : Copy.Store) (rs : List Copy.ITxn)
+    (h : Copy.iterate S = some rs) : FileStore.abs (openLog (storeL S)) = rs.map itxnH :=
+  absLog_storeL h
+
+/-- C17 ↔ C04 ↔ C01, everything at once.  A well-formed store of C17 (`WFStore`) whose `prev`
+    fields are index values (`PrevOK`: true of every store written by `restore`, next theorem)
+    is — translated and opened — a state of C04 satisfying C04's invariant; its abstract history is
+    C17's iteration; hence (C04 `fs_refines_history`) every pointer-chasing query on it is the
+    `History` query on C17's iteration; and its C01 image is C17's image. -/
+theorem wfStore_is_filestore_state (S : Copy.Store) (h : Proofs.Recover.WFStore S) (hp : PrevOK S) :
+    ∃ rs, Copy.iterate S = some rs ∧ FileStore.Inv (openLog (storeL S)) ∧
+      FileStore.abs (openLog (storeL S)) = rs.map itxnH ∧
+      (∀ oid, FileStore.load (openLog (storeL S)) oid = History.load (rs.map itxnH) oid) ∧
+      (∀ oid b, FileStore.loadBefore (openLog (storeL S)) oid b = History.loadBefore (rs.map itxnH) oid b) ∧
+      (∀ oid s, FileStore.loadSerial (openLog (storeL S)) oid s = History.loadSerial (rs.map itxnH) oid s) ∧
+      Format.encodeFile (logF (openLog (storeL S)).log) = Recover.encStore S ∧
+      (openLog (storeL S)).pos = (Recover.encStore S).length := by
+  obtain ⟨rs, h1, _, _⟩ := Proofs.Copy.storeOK_source h.1
+  have hst : ∀ t ∈ S, t.status ≠ 117 ∧ t.status ≠ 99 := by
+    intro t ht
+    rcases (h.2.2 t ht).2.1 with e | e <;> omega
+  have hinv : FileStore.Inv (openLog (storeL S)) :=
+    openLog_inv (logInv_storeL h.1 (storeEnc_noEmpty h.2) hst hp)
+  have habs := copy_iterate_is_filestore_abs S rs h1
+  refine ⟨rs, h1, hinv, habs, ?_, ?_, ?_, ?_, ?_⟩
+  · intro oid; rw [Proofs.FileStoreRefine.load_refines hinv, habs]
+  · intro oid b; rw [Proofs.FileStoreRefine.loadBefore_refines hinv, habs]
+  · intro oid s; rw [Proofs.FileStoreRefine.loadSerial_refines hinv, habs]
+  · rw [openLog_log, logF_storeL, encStore_eq_encodeFile_wf S h]
+  · rw [hinv.pos, openLog_log, logEnd_storeL, Proofs.Recover.encStore_length]
+
+/-- `PrevOK` is what `restore` establishes: every store produced by C17's copy loop from a `PrevOK`
+    store (e.g. the empty one) is `PrevOK` -/
+theorem copy_establishes_prevOK (src : List Copy.ITxn) (D₀ D : Copy.Store)
+    (h : Copy.copy src D₀ = .ok D) (hp : PrevOK D₀) : PrevOK D :=
+  copyLoop_prev h hp
+
+example : PrevOK exS := by decide
+example : (FileStore.abs (openLog (storeL exS))).map (·.recs) =
+    [[⟨1, some [78, 46], none⟩, ⟨2, some [79, 46], none⟩], [⟨1, some [80, 46], none⟩],
+     [⟨1, some [78, 46], some 1⟩, ⟨2, none, none⟩]] := by decide +kernel
+example : (Copy.iterate exS).map (·.map itxnH) = some (FileStore.abs (openLog (storeL exS))) := by
+  decide +kernel
+example : FileStore.load (openLog (storeL exS)) 1 = .ok ([78, 46], 3) ∧
+    (openLog (storeL exS)).pos = 331 := by decide +kernel
+
+/-! ## §7  The undo model's log (C06) = `History` (C04)
+
+`absU : Undo.Log → History`: commit order, every record's data and `data_txn` resolved through its
+back pointer in the flattened record list (positions are ordinals there, not byte offsets). -/
+
+/-- C06 ↔ C04: the object state the undo model reads (`Undo.dataOf`, i.e. `load` through index
+    and back pointers on ordinals) is the data `History.load` answers on the abstracted log — for
+    EVERY log, no invariant needed. -/
+theorem undo_dataOf_is_history_load (L : Undo.Log) (oid : Nat) :
+    Undo.dataOf (Undo.flat L) oid = histData (absU L) oid :=
+  dataOf_absU L oid
+
+/-- hence the three states C06's specification `Undo.verdictFor` compares when transaction `T` is
+    undone — right after `T`, now, right before `T` — are `History.load` on the history up to and
+    including `T`, on the current history (view `S` staged over `L`), and on the history before `T`. -/
+theorem undo_verdict_states_are_history_loads (T : Undo.Txn) (older L : Undo.Log) (utid : Nat)
+    (S : List Undo.Rec) (oid : Nat) :
+    Undo.dataOf (Undo.flat (T :: older)) oid = histData (absU older ++ [absTxnU older T]) oid ∧
+    Undo.dataOf (S ++ Undo.flat L) oid = histData (absU (⟨utid, false, S⟩ :: L)) oid ∧
+    Undo.dataOf (Undo.flat older) oid = histData (absU older) oid :=
+  ⟨dataOf_absU (T :: older) oid, dataOf_absU (⟨utid, false, S⟩ :: L) oid, dataOf_absU older oid⟩
+
+def exU : Undo.Log :=
+  [⟨3, false, [⟨1, 3, 2, .back 1⟩, ⟨2, 3, 0, .data [5]⟩]⟩, ⟨2, false, [⟨1, 2, 1, .data [9]⟩]⟩,
+   ⟨1, false, [⟨1, 1, 0, .data [7]⟩]⟩]
+example : Undo.invB exU = true ∧ Undo.dataOf (Undo.flat exU) 1 = some [7] ∧
+    absU exU = [⟨1, 32, [], [], [], [⟨1, some [7], none⟩]⟩, ⟨2, 32, [], [], [], [⟨1, some [9], none⟩]⟩,
+      ⟨3, 32, [], [], [], [⟨2, some [5], none⟩, ⟨1, some [7], some 1⟩]⟩] ∧
+    History.load (absU exU) 1 = .ok ([7], 3) := by decide
 
 end Props.Links
